@@ -61,6 +61,7 @@ def _ops(kind, seps):
         st.tuples(st.just('write'), chunk, st.sampled_from(['len', 'end'])),
         st.tuples(st.just('write'), chunk, st.sampled_from(['len', 'end'])),
         st.tuples(st.just('write'), chunk, st.sampled_from(['len', 'end'])),
+        st.tuples(st.just('writelines'), st.lists(piece, max_size=5), st.sampled_from(['list', 'gen_tell', 'gen_tell', 'fail_midway'])),
         st.tuples(st.just('read'), st.sampled_from([None, -1, 1, 2, 3, 5, 100])),
         st.tuples(st.just('read'), st.sampled_from([1, 2, 3])),
         st.tuples(st.just('readline'), st.just(None)),
@@ -127,9 +128,11 @@ def run_spool(case):
     def wdata(op):
         # ['write', pieces, how] or ['write', pieces, how, repetitions] (scale class: one write of tens of thousands of characters)
         return conv(op[1]) * (op[3] if len(op) > 3 else 1)
-    total = sum(len(wdata(op)) for op in case['ops'] if op[0] == 'write')
+    def wl(op):
+        return conv(op[1]) if op[0] == 'writelines' else wdata(op)
+    total = sum(len(wl(op)) for op in case['ops'] if op[0] in ('write', 'writelines'))
     if kind == 'text':
-        total_b = sum(len(wdata(op).encode('utf-8')) for op in case['ops'] if op[0] == 'write')
+        total_b = sum(len(wl(op).encode('utf-8')) for op in case['ops'] if op[0] in ('write', 'writelines'))
     else:
         total_b = total
     sizes = sorted({1, 2, max(1, total_b // 2), max(1, total_b), total_b + 1, 10 ** 6})
@@ -163,6 +166,24 @@ def run_spool(case):
                         f.seek(0, 2)
                     f.write(data)
                 compare_ret = False
+            elif name == 'writelines':
+                # appended with writelines(): from a list, from a lazy generator that looks at tell() between lines (the
+                # positions it sees are compared), or from a generator that fails half-way (what was written so far stays)
+                lines = [conv([p_]) for p_ in op[1]]
+
+                def do(f, lines=lines, mode=op[2]):
+                    f.seek(0, 2)
+                    seen = []
+
+                    def gen():
+                        for i, l in enumerate(lines):
+                            if mode == 'gen_tell':
+                                seen.append(f.tell())
+                            if mode == 'fail_midway' and i == len(lines) // 2:
+                                raise ZeroDivisionError('the line source failed')
+                            yield l
+                    f.writelines(list(lines) if mode == 'list' else gen())
+                    return seen
             elif name == 'read':
                 n = op[1]
                 do = (lambda f: f.read()) if n is None else (lambda f, n=n: f.read(n))
@@ -294,7 +315,8 @@ def strat_mfr(tier):
         kind = draw(st.sampled_from(['bytes', 'text']))
         piece = _bpiece if kind == 'bytes' else _tpiece
         members = draw(st.lists(st.lists(piece, max_size=4), min_size=1, max_size=5))
-        forms = draw(st.lists(st.sampled_from(['mem', 'mem', 'file']), min_size=len(members), max_size=len(members)))
+        # 'ntf': tempfile.NamedTemporaryFile - one wrapper class for binary and for text streams
+        forms = draw(st.lists(st.sampled_from(['mem', 'mem', 'file', 'ntf']), min_size=len(members), max_size=len(members)))
         reads = draw(st.lists(st.one_of(
             st.tuples(st.just('read'), st.integers(1, 12)),
             st.tuples(st.just('read'), st.integers(1, 4)),
@@ -333,6 +355,14 @@ def run_mfr(case):
         for i, (c, form) in enumerate(zip(contents, case['forms'])):
             if form == 'mem':
                 files.append(io.BytesIO(c) if kind == 'bytes' else io.StringIO(c))
+            elif form == 'ntf':
+                t = tempfile.NamedTemporaryFile(mode='w+b', dir=tmpdir) if kind == 'bytes' else \
+                    tempfile.NamedTemporaryFile(mode='w+', encoding='utf-8', newline='', dir=tmpdir)
+                t.write(c)
+                t.flush()
+                t.seek(0)
+                files.append(t)
+                out.label('NamedTemporaryFile_member')
             else:
                 path = os.path.join(tmpdir, 'm%d' % i)
                 if kind == 'bytes':
